@@ -76,6 +76,8 @@ inductive Stmt where
   /-- `( probe "$!" "$x"; wait $! )` -/
   | gl
   | wx
+  /-- `kill -s TERM 99999` -/
+  | ku
   | sc (n : Nat)
   | scp (n : Nat)
   | w
@@ -474,6 +476,7 @@ def St.stmt (st : St) : Stmt → St
     let st1 := st.subshell (if st.useSys then waitStatus .echild else Spec.wait none)
     { st1 with out := s!"{showStatus st.status}/{bang}/{x}" :: st1.out }
   | .wx => { st with status := 2 }
+  | .ku => { st with status := EXIT_FAILURE }   -- ESRCH: no such process
   | .sc n =>
     -- job 1 `st 0 &` is waited for at once (the table is empty again), job 2 is the helper (exit 0)
     let st1 := st.wake.newJob 0 1
